@@ -1,0 +1,29 @@
+//go:build verif
+
+// Contracts for package internal (comment-only; read by /verif/bin/gowp).
+package internal
+
+//@ func Percentage
+//@   props    C08 C20
+//@   pure
+//@   requires width <= 1<<32
+//@   ensures  total == 0 ==> result == 0
+//@   ensures  total > 0 && current >= total ==> result == real(width)
+//@   ensures  upper: total > 0 && current < total ==> result >= 0 && result <= real(width) + real(width)/pow2(50)
+//@   ensures  nearest: total > 0 && current < total ==>
+//@              abs(result - real(width)*real(current)/real(total)) <= real(width)/pow2(50)
+
+//@ func PercentageRound
+//@   props    C08
+//@   pure
+//@   requires width <= 1<<31
+//@   ensures  range: isInt(result) && 0 <= result && result <= real(width)
+//@   ensures  zero: current <= 0 || total <= 0 ==> result == 0
+//@   ensures  full: 0 < total && total <= current ==> result == real(width)
+//@   ensures  nearest: 0 <= current && current < total ==>
+//@              abs(result - real(width)*real(current)/real(total)) <= 0.5 + real(width)/pow2(50)
+
+//@ func CheckRequestedWidth
+//@   props    C07
+//@   pure
+//@   ensures  result == ite(requested < 1 || requested > available, available, requested)
